@@ -492,7 +492,43 @@ def run_shard(desc):
                 res.fail({'base_index': bi, 'tier': tier, 'choice': [list(x) for x in ch2], 'base': base_text, 'variant': vt}, sig, rr[1])
             else:
                 res.failure_count += 1
+    run_codepoints(sv, tier, i, n, res)
     return res
+
+
+def run_codepoints(sv, tier, i, n, res):
+    """A character and its hex escape are the same character, for every code point a selector can carry: all boundaries of the ranges the
+    escape rules mention, plus every 13th code point from U+00A0 to U+10FFFF (thorough: every one), as class, id and quoted value, with the
+    escape written short + blank and as six upper-case digits."""
+    edges = [0xa0, 0xa1, 0xff, 0x100, 0x7ff, 0x800, 0xfff, 0x1000, 0xcfff, 0xd000, 0xd001, 0xd55c, 0xd7fe, 0xd7ff, 0xe000, 0xe001, 0xf8ff, 0xfdd0, 0xfeff,
+             0xfffc, 0xfffd, 0xfffe, 0xffff, 0x10000, 0x10001, 0x1ffff, 0x20000, 0xe0001, 0xfffff, 0x100000, 0x10fffe, 0x10ffff]
+    cps = edges + list(range(0xa0, 0x110000, 13 if tier == 'quick' else 1))     # U+0080-U+009F are not identifier characters for this parser (CSS 2.1 grammar); escape() escapes them (C10)
+    fails = 0
+    for idx in range(i, len(cps), n):
+        cp = cps[idx]
+        if 0xd800 <= cp <= 0xdfff:
+            continue            # a surrogate escape means U+FFFD; the raw character is not the same thing
+        ch = chr(cp)
+        for form in ('.x%s', '#%s-', '[a="%sz"]'):
+            base = form % ch
+            for esc in ('\\%x ' % cp, '\\%06X' % cp):
+                var = form % esc
+                res.evaluations += 1
+                res.nontrivial += 1
+                r = compare(sv, base, var, ())
+                if r is None:
+                    res.outcome('same-meaning')
+                    continue
+                res.outcome(r[0])
+                fails += 1
+                if fails <= 3:
+                    where = 'below-surrogates' if cp < 0xd800 else ('bmp-above-surrogates' if cp < 0x10000 else 'astral')
+                    res.fail({'base_index': -1, 'tier': tier, 'choice': [], 'base': base, 'variant': var},
+                             {'kind': r[0], 'sites': 'codepoint:' + where, 'alts': 'hex-escape'}, f'U+{cp:04X}: ' + r[1])
+                else:
+                    res.failure_count += 1
+        if idx % 5000 == 0:
+            sv.purge()
 
 
 def replay(case):
